@@ -119,6 +119,29 @@ def check(run, repo):
                   '[%s] printed %s; %s' % (label, show(txt, 160), why), owner_fs.module, fn_fs,
                   sample='[%s] %s parses back to the same reaction' % (label, show(txt, 120)) if n % 23 == 0 else None)
     run.floor('print/parse cases', n, 60)
+    # printed without its transition state, a reaction parses back to the same reactants and products and no
+    # transition state
+    for sd, rd in (('+', '='), (' & ', '->')):
+        I = Interp(repo)
+        sp = named_species(I, [('r0', 2), ('p0', 3), ('p1', 2), ('t0', 4)])
+        k = list(sp)
+        rxn = make_reaction(I, repo, ci, [sp[k[0]]], [C(2)], [sp[k[1]], sp[k[2]]], [C(1), C(3)], [sp[k[3]]], [C(1)])
+        txt = I.call_method(rxn, 'to_string', [], {'species_delimiter': sd, 'reaction_delimiter': rd,
+                                                   'include_TS': False})
+        back = None
+        if not isinstance(txt, Raised):
+            back = I.call_function(owner_fs.module, fn_fs, [], {'reaction_str': txt, 'species': DictV(dict(sp)),
+                                                                'species_delimiter': sd.strip(),
+                                                                'reaction_delimiter': rd.strip()},
+                                   self_obj=ci, owner=owner_fs)
+        ok = isinstance(back, Obj) and get_public(I, back, 'transition_state') is None and \
+            get_public(I, back, 'reactants').items == [sp[k[0]]] and \
+            get_public(I, back, 'products').items == [sp[k[1]], sp[k[2]]] and \
+            all(a.eq(C(b)) for a, b in zip(get_public(I, back, 'reactants_stoich').items +
+                                           get_public(I, back, 'products_stoich').items, (2, 1, 3)))
+        run.check(ok, 'TABLE.roundtrip', 'Reaction.to_string', 'include_TS=False delims=%r/%r' % (sd, rd),
+                  'printed without its transition state as %s the reaction parses back to %s'
+                  % (show(txt, 120), show(back, 80)), owner_ts.module, fn_ts)
 
     # ---- parsing: repeated species, omitted/decimal/integer coefficients, blanks, unknown species ----------
     I = Interp(repo)
@@ -171,6 +194,33 @@ def check(run, repo):
     run.check(isinstance(r, Raised) and r.exc == 'KeyError', 'PATH.unknown-species', 'Reaction.from_string', 'reactant',
               'a species missing from the dictionary must raise KeyError naming it, got %s' % show(r), owner_fs.module,
               fn_fs)
+    # a transition state that cannot be found, under the documented options: an error naming it by default; with
+    # raise_error=False the reaction is built without a transition state (no partial one, no stray coefficients),
+    # announced by a warning unless raise_warning=False - wherever the unknown species stands in the transition state
+    X = SegStr.field('~X', 2, 'text')
+    for ts_label, ts_txt in (('TS = X', X), ('TS = X + B', X + '+' + B), ('TS = B + X', B + '+' + X)):
+        for re_, rw_ in ((True, True), (False, True), (False, False)):
+            nw = len(I.warnings)
+            r = I.call_function(owner_fs.module, fn_fs, [], {
+                'reaction_str': A + '=' + ts_txt + '=' + B, 'species': DictV({kA: sp[kA], kB: sp[kB]}),
+                'raise_error': re_, 'raise_warning': rw_}, self_obj=ci, owner=owner_fs)
+            key = 'unknown transition state, %s, raise_error=%s raise_warning=%s' % (ts_label, re_, rw_)
+            if re_:
+                ok = isinstance(r, Raised) and r.exc == 'KeyError'
+                why = 'must raise KeyError naming the species, got %s' % show(r, 100)
+            else:
+                ok = isinstance(r, Obj)
+                why = 'must give a reaction, got %s' % show(r, 100)
+                if ok:
+                    ts_, tss_ = get_public(I, r, 'transition_state'), get_public(I, r, 'transition_state_stoich')
+                    warned = len(I.warnings) > nw
+                    ok = ts_ is None and tss_ is None and warned == rw_ and \
+                        get_public(I, r, 'reactants').items == [sp[kA]] and get_public(I, r, 'products').items == [sp[kB]]
+                    why = 'must give the reaction without a transition state%s: transition_state=%s, ' \
+                          'transition_state_stoich=%s, %s' % (' and warn' if rw_ else ', silently', show(ts_, 60),
+                                                              show(tss_, 60), 'warned' if warned else 'no warning')
+            run.check(ok, 'PATH.unknown-species', 'Reaction.from_string', key,
+                      'A = %s = B with X missing from the dictionary %s' % (ts_label[5:], why), owner_fs.module, fn_fs)
     # species given as a list
     r = I.call_function(owner_fs.module, fn_fs, [], {'reaction_str': A + '=' + B,
                                                      'species': ListV([sp[kA], sp[kB]])}, self_obj=ci, owner=owner_fs)
@@ -251,6 +301,13 @@ def formulas(run, repo):
 
 R_ = 'pmutt/reaction/__init__.py'
 MUTANTS = [
+    {'name': 'transition state dropped only when the warning is raised', 'expect': ('PATH.unknown-species', 'from_string'),
+     'edits': [(R_, '''                        warn(warn_msg, RuntimeWarning)
+                    # Reinitialize without the transition state
+                    ts = None
+                    ts_stoich = None
+                    break''', '''                        warn(warn_msg, RuntimeWarning)
+                        ts = None''')]},
     {'name': 'repeated species overwrite instead of sum', 'expect': ('REF.parse', 'from_string'),
      'edits': [(R_, '            stoichiometry[i] += specie_stoich', '            stoichiometry[i] = specie_stoich')]},
     {'name': 'products parsed from the middle state', 'expect': ('', 'from_string'),
